@@ -13,6 +13,8 @@ decidable exclusion.
 -/
 import CaddyModel.C20.Lemmas
 import CaddyModel.C20.Witness
+import CaddyModel.Gen.Redacted
+import CaddyModel.Gen.LogSites
 
 namespace CaddyModel.C20
 
@@ -194,6 +196,32 @@ theorem sites_use_server_flag (s : Scn) :
       simp at he
       rcases he with rfl | rfl <;> simp
 
+/-! ### regenerated facts (`Gen/*.lean` is rewritten from /repo's source on every run) -/
+
+/-- the names in the `switch` of marshalers.go are the model's `credNames`, and the switch is keyed
+    on `strings.ToLower(key)`: editing the list or the folding in the source breaks this theorem -/
+theorem redacted_names_match_source :
+    Gen.redactionIsCaseFolded = true ∧
+    ((Gen.redactedHeaderNames.map str).all (fun n => credNames.contains n) &&
+     credNames.all (fun n => (Gen.redactedHeaderNames.map str).contains n)) = true := by decide
+
+/-- kinds of log-site arguments that go through `LoggableHTTPRequest` / `LoggableHTTPHeader` with the
+    server's `ShouldLogCredentials` (or with the flag left off) -/
+def wrappedKind (k : String) : Bool :=
+  k == "wrapped" || k == "wrapped-value" || k == "wrappedcred:shouldLogCredentials"
+
+/-- **all sites wrapped.** Every zap field under modules/caddyhttp/… whose argument is (computed from) an
+    `*http.Request`, `http.Header`, `http.Response` or cookies goes through the loggable wrappers; the four
+    modelled sites are among them with the flag the model gives them.  A new unwrapped log site, or a
+    wrapper fed with another flag expression, changes the regenerated table and breaks this theorem. -/
+theorem all_sites_wrapped :
+    Gen.logSitesScanComplete = true ∧ Gen.logSites.all (fun s => wrappedKind s.2.2) = true ∧
+    ([("caddyhttp.ServeHTTP", "request", "wrappedcred:shouldLogCredentials"),
+      ("caddyhttp.logRequest", "resp_headers", "wrappedcred:shouldLogCredentials"),
+      ("reverseproxy.reverseProxy", "request", "wrappedcred:shouldLogCredentials"),
+      ("reverseproxy.reverseProxy", "headers", "wrappedcred:shouldLogCredentials"),
+      ("rewrite.ServeHTTP", "request", "wrapped")].all fun s => Gen.logSites.contains s) = true := by decide
+
 /-! ## 3. field filters -/
 
 /-- **delete** emits nothing, for every field type -/
@@ -297,6 +325,13 @@ theorem ipmask_hides_host_bits_partial (o : Oracles) (m4 m6 : Option (List UInt8
     maskValue o m4 m6 v = maskValue o m4 m6 v' := by
   simp [maskValue, h1, h2, hnet, hport]
 
+/-- the string-level glue of `mask` (append `, ` after every element, `TrimSuffix` once) is exactly
+    "process every comma-separated element on its own and join with `, `": no element can influence how
+    another is treated, and an element whose host `net.ParseIP` accepts is always emitted masked. -/
+theorem ipmask_string_is_elementwise (o : Oracles) (m4 m6 : Option (List UInt8)) (s : Bytes) :
+    ipMaskStr o m4 m6 s = commaSpace.intercalate ((splitOn 44 s).map fun p => maskValue o m4 m6 (o.trim p)) :=
+  ipMaskStr_eq o m4 m6 s
+
 /-- the masks are CIDR masks: byte `i` of a `/ones` mask keeps the top `min 8 (ones - 8 i)` bits -/
 theorem cidr_mask_table : (List.range 9).map maskByte = [0, 128, 192, 224, 240, 248, 252, 254, 255] ∧
     ∀ len ones, (cidrBytes (len + 1) ones) = maskByte ones :: cidrBytes len (ones - 8) := by
@@ -328,6 +363,20 @@ example : (siteEntries exScn).map (·.logger) =
     [str "http.handlers.rewrite", str "http.handlers.reverse_proxy", str "http.log.error", str "http.log.error.n1",
      str "http.log.access", str "http.log.access", str "http.log.access.n1", str "http.log.access.n1"] := by decide
 example : ∀ e ∈ siteEntries exScn, ∀ b ∈ hdrStrings e.hdr, occurs (str "SECRET") b = false := by decide
+
+-- with log_credentials ON the rewrite entry is still redacted, the access entry is not
+def exScnOn : Scn := { exScn with creds := true, route := .respond }
+example : (siteEntries exScnOn).map (fun e => (e.logger, occurs (str "SECRET") (hdrStrings e.hdr).flatten)) =
+    [(str "http.handlers.rewrite", false), (str "http.log.access", true), (str "http.log.access", true),
+     (str "http.log.access.n1", true), (str "http.log.access.n1", true)] := by decide
+
+def exReq : Req := ⟨str "10.0.0.1:5", some (str "10.0.0.1", str "5"), some (str "10.0.0.1"), str "HTTP/1.1", str "GET",
+  str "a.test", str "/x?y=1", exHdr, some [str "chunked"]⟩
+example : (loggableRequest exReq false).map (·.key) =
+    [str "remote_ip", str "remote_port", str "client_ip", str "proto", str "method", str "host", str "uri",
+     str "headers>cOOkie", str "headers>X", str "headers>Proxy-Authorization", str "transfer_encoding"] := by decide
+example : ∀ b ∈ fieldStrings (loggableRequest exReq false), occurs (str "SECRET") b = false := by decide
+example : ∃ b ∈ fieldStrings (loggableRequest exReq true), occurs (str "SECRET") b = true := by decide
 
 def exO : Oracles where
   H := fun s => 104 :: s.reverse
